@@ -500,7 +500,10 @@ def evalBuiltin : Nat → String → List Node → M Obj
     match t with
     | "CATCH" =>
       match val with
-      | .error m => pure (.map false [(errKey, .bool true), (valueKey, .str (toBytes m))])
+      | .error m => do
+        -- an error turned into a value must not make the enclosing call cacheable (it may be due to the bindings of the moment)
+        triggerNoCache (← curEnv)
+        pure (.map false [(errKey, .bool true), (valueKey, .str (toBytes m))])
       | _ => pure (.map false [(errKey, .bool false), (valueKey, val)])
     | "FIRST" => do objFirst (← valueOf val)
     | "REST" => do objRest (← valueOf val)
